@@ -74,7 +74,9 @@ func (p *tailProcessor) Process(iqr *iqr.IQR) (*iqr.IQR, error) {
 		return nil, fmt.Errorf("tailProcessor.Process: failed to reverse records: %v", err)
 	}
 
-	return p.finalIqr, io.EOF
+	// Hand out a copy: the commands downstream modify what they are given in
+	// place, and the final result may be asked for again after a Rewind().
+	return p.finalIqr.Copy(), io.EOF
 }
 
 func (p *tailProcessor) Rewind() {
@@ -87,7 +89,7 @@ func (p *tailProcessor) Cleanup() {
 
 func (p *tailProcessor) GetFinalResultIfExists() (*iqr.IQR, bool) {
 	if p.eof {
-		return p.finalIqr, true
+		return p.finalIqr.Copy(), true
 	}
 	return nil, false
 }
